@@ -427,6 +427,10 @@ fn fault_ops(rng: &mut Rng, s: &Sess<T, T>, chains: &[Vec<u64>], raw_chains: &[V
     ops.push(Op::n(Code::TryReserve, all.len() as u64 + 9));
     ops.push(Op::new(Code::ShrinkToFit));
     ops.push(Op::n(Code::ShrinkTo, all.len() as u64 + 2));
+    // a floor that keeps the bucket count (the call then has nothing to relocate)
+    let b = s.mon.state().main.buckets as u64;
+    ops.push(Op::n(Code::ShrinkTo, b / 8 * 7 * 3 / 4));
+    ops.push(Op::n(Code::ShrinkTo, b / 8 * 7));
     ops.push(Op::new(Code::EqSelf));
     ops.push(Op::new(Code::IterMut).with_v(2));
     ops
